@@ -112,16 +112,23 @@ def oracle(run, corr, deep, seqs):
     ans = impl(reqs)
     found = 0
     seen = set()
-    for r, a in zip(reqs, ans):
+    for i, (r, a) in enumerate(zip(reqs, ans)):
         why = judge(r, a, seqs)
         if why and (r.split()[0], why) not in seen:
             seen.add((r.split()[0], why))
-            found += run.report_witness({"kind": "burst-generator", "request": r, "impl": a[:200], "what": why})
+            # the generator object lives through the stream: the shortest suffix of the earlier requests that reproduces it
+            hist = [r]
+            for k in (0, 1, 2, 4, 8, 16, 64, i):
+                h = reqs[max(0, i - k):i + 1]
+                if judge(r, impl(h)[-1], seqs):
+                    hist = h
+                    break
+            found += run.report_witness({"kind": "burst-generator", "request": r, "history": hist, "impl": a[:200], "what": why})
     corr.distribution["oracle(C10): generated bursts judged against the TS 45.002 layouts"] = len(reqs)
     return found
 
 
 def replay(run, w, seqs):
-    a = impl([w["request"]])[0]
+    a = impl(w.get("history") or [w["request"]])[-1]
     why = judge(w["request"], a, seqs)
     return bool(why), "replay burst-generator %s -> %s : %s" % (w["request"][:100], a[:170], why or "layout as in TS 45.002")
